@@ -24,6 +24,13 @@ func searchDeepGen(r *common.Rng, n int, shard int, out *common.Out) {
 	starts := poslib.StartPositions()
 	cnt := 0
 	for cnt < n {
+		if r.Chance(1, 4) {
+			if fen, ok := poslib.MotifPosition(r); ok {
+				out.Line("%s", spec(fen, "", 3+r.Intn(3), -1))
+				cnt++
+			}
+			continue
+		}
 		si := 0
 		if r.Chance(1, 3) {
 			si = r.Intn(len(starts))
